@@ -196,24 +196,32 @@ def warm_up():
 class Run:
     """The real Calculator on the given files.  `.calc` or `.error` (the exception)."""
 
-    def __init__(self, files: Dict[str, str], hook=None):
+    def __init__(self, files: Dict[str, str], hook=None, workdir: Optional[str] = None, settings_name: str = "settings.yaml",
+                 write_data: bool = True):
+        """`workdir`: run inside this existing directory and leave it in place (several calculations on the SAME file paths in one
+        process); `write_data=False`: the data files are already there and are not touched — only the settings text is written,
+        under `settings_name`."""
         self.files = files
         self.calc = None
         self.error: Optional[BaseException] = None
         self.traceback_functions: List[str] = []
-        d = tempfile.mkdtemp(prefix="cijrun_")
+        d = workdir if workdir is not None else tempfile.mkdtemp(prefix="cijrun_")
         try:
             for n, text in files.items():
-                with open(os.path.join(d, n), "w") as fp:
-                    fp.write(text)
+                if n == "settings.yaml":
+                    with open(os.path.join(d, settings_name), "w") as fp:
+                        fp.write(text)
+                elif write_data:
+                    with open(os.path.join(d, n), "w") as fp:
+                        fp.write(text)
             with quiet():
                 from cij.core.calculator import Calculator
                 try:
                     if hook is not None:
                         with hook:
-                            self.calc = Calculator(os.path.join(d, "settings.yaml"))
+                            self.calc = Calculator(os.path.join(d, settings_name))
                     else:
-                        self.calc = Calculator(os.path.join(d, "settings.yaml"))
+                        self.calc = Calculator(os.path.join(d, settings_name))
                 except Exception as e:  # the property speaks about ValueError; everything is recorded
                     self.error = e
                     tb = e.__traceback__
@@ -221,7 +229,8 @@ class Run:
                         self.traceback_functions.append(tb.tb_frame.f_code.co_name)
                         tb = tb.tb_next
         finally:
-            shutil.rmtree(d, ignore_errors=True)
+            if workdir is None:
+                shutil.rmtree(d, ignore_errors=True)
 
 
 # ----------------------------------------------------------------------------- own parsers (oracle side)
